@@ -242,7 +242,7 @@ pub struct Repository {
     #[deb822(field = "Targets", deserialize_with = deserialize_string_chain, serialize_with = serialize_string_chain)]
     targets: Option<Vec<String>>,
     /// (Optional) Controls if APT should try PDiffs instead of downloading indexes entirely; if not set defaults to configuration option `Acquire::PDiffs`
-    #[deb822(field = "PDiffs", deserialize_with = deserialize_yesno)]
+    #[deb822(field = "PDiffs", deserialize_with = deserialize_yesno, serialize_with = serializer_yesno)]
     pdiffs: Option<bool>,
     /// (Optional) Controls if APT should try to acquire indexes via a URI constructed from a hashsum of the expected file
     #[deb822(field = "By-Hash")]
